@@ -28,6 +28,19 @@ CHECKS = {
 
 NOT_APPLICABLE = []
 
+CHECKS['C15'] = (
+    'symbolic execution of every get / load / list / update / delete db-api '
+    'function of the 11 secured resource types on minidb: the real WHERE '
+    'clause each function builds (incl. _secure_query and the membership '
+    'sub-query) is interpreted over a row with symbolic owner and scope '
+    'under a caller with symbolic admin flag and membership status',
+    'A row is returned iff own, public, shared through an accepted '
+    'membership, or the caller is admin (pending / rejected never admit); a '
+    'write takes effect only for the owner or an admin; created rows belong '
+    'to the caller. Known finding F9 (public rows writable by non-owners '
+    'through 13 mutators) is reported per function.',
+    '§3 C15')
+
 CHECKS['C20'] = (
     'symbolic execution of the expiry query and checker pass over a symbolic '
     'action row and symbolic clock / settings (sqlir on minidb), of the '
